@@ -611,9 +611,16 @@ def profile_inputs(ctx, exe, suite):
     return prof
 
 
+def build(ctx):
+    # pure-Go build: with cgo linked in, the Go runtime does not report "all goroutines are asleep", which is what
+    # proves a blocked session in the isolated rerun
+    os.environ['CGO_ENABLED'] = '0'
+    return vlib.build_harness(ctx, 'c12')
+
+
 def run(ctx):
     quick = ctx.quick()
-    exe = vlib.build_harness(ctx, 'c12')
+    exe = build(ctx)
     # ---- MC (runs concurrently with generation and the real sessions)
     vlib._speccopy(ctx)
     pool = ThreadPoolExecutor(max_workers=3 if quick else 4)
@@ -702,7 +709,7 @@ def run(ctx):
 
 
 def replay(ctx, obj):
-    exe = vlib.build_harness(ctx, 'c12')
+    exe = build(ctx)
     c = dict(obj['case'])
     c['in'] = list(c['in'].encode('latin1')) if isinstance(c['in'], str) else c['in']
     c.setdefault('id', 0)
